@@ -125,18 +125,19 @@ func loadRepo() (*Loaded, error) {
 }
 
 type Instance struct {
-	Property   string         `json:"property"`
-	Pkg        string         `json:"pkg"`
-	Func       string         `json:"func"`
-	Params     map[string]int `json:"params"`
-	Note       string         `json:"note,omitempty"`
-	MaxPaths   int            `json:"-"`
-	MaxSteps   int            `json:"-"`
-	Timeout    time.Duration  `json:"-"`
-	NumCPU     int            `json:"-"`
-	CheckAlloc bool           `json:"-"`
-	Tier       int            `json:"-"` // 0 quick+thorough, 1 thorough only
-	Solvers    string         `json:"-"` // portfolio override (comma separated)
+	Property       string         `json:"property"`
+	Pkg            string         `json:"pkg"`
+	Func           string         `json:"func"`
+	Params         map[string]int `json:"params"`
+	Note           string         `json:"note,omitempty"`
+	MaxPaths       int            `json:"-"`
+	MaxSteps       int            `json:"-"`
+	Timeout        time.Duration  `json:"-"`
+	QueryTimeoutMs int            // per-query solver budget for this instance (0: the tier default)
+	NumCPU         int            `json:"-"`
+	CheckAlloc     bool           `json:"-"`
+	Tier           int            `json:"-"` // 0 quick+thorough, 1 thorough only
+	Solvers        string         `json:"-"` // portfolio override (comma separated)
 }
 
 func (in *Instance) Name() string {
